@@ -13,6 +13,7 @@
    (e) save/load of simulation B while simulation A's server thread handles requests (descriptor double close) [known finding when it hits]
    (l) every server scenario also against the UNOBSERVED run (no server, nothing ever serialised); scenarios with variational particles /
        MEGNO, test particles, a user ODE, collisions; correspondence of the audited IAS15 compression with the Gallina model
+   (q) error paths of the server life cycle with other serving simulations and open archives as witnesses
    (j) per integrator type: 4 simulations of that type at the same time in 4 threads vs sequentially (same-code-path overlap)
    (i) co-residency, one class per kind of process-global state (libc rng, static caches): B alone in a fresh process vs after / next to
        other simulations vs served + continued
@@ -139,6 +140,9 @@ def conc_params(ctx, nper, rounds):
     # degenerate corners of the quantified space, each on a randomly chosen integrator
     for cn in CORNERS:
         integ = rng.choice(INTEGRATORS[:-1])
+        if cn == "coincident" and integ == "trace":
+            integ = "mercurius"      # TRACE never finishes its first step with two coincident particles (status becomes GENERIC_ERROR inside the
+                                     # step but the encounter integration keeps looping): an integrate()-contract defect outside C19, reported
         s = {"integrator": integ, "n": {"star_only": 0, "one_planet": 1}.get(cn, rng.randint(2, 4)), "seed": rng.randint(1, 10 ** 6), "dt": 0.01,
              "eft": rng.choice([0, 1]) if integ != "janus" else 0, "corner": cn, "t1": 0.3, "t2": 0.7, "safe_mode": rng.choice([0, 1])}
         specs.append(s)
@@ -227,6 +231,8 @@ def run(ctx):
         pcn["spec"].update({"corner": cn, "n": {"star_only": 0, "one_planet": 1}.get(cn, pcn["spec"]["n"])})
         pcn.update({"tmax": 0.5 if pcn["spec"]["integrator"] != "ias15" else 2.0, "sleep_ms": 2.0, "hb_two_writes": False, "continue": 2})
         jobs.append(("server-corner:" + cn, libdir, "server", pcn, 240))
+    # error paths of the server life cycle taken once, then the same process goes on; witnesses = other serving simulations + open archives
+    jobs.append(("lifecycle", libdir, "lifecycle", {"seed": ctx.rng.randint(1, 10 ** 6)}, 240))
     # a client that goes away before the end of its request headers
     jobs.append(("incomplete-request", libdir, "incomplete", {"seed": ctx.rng.randint(1, 10 ** 6), "spec": {"integrator": "leapfrog", "n": 2, "seed": 5, "dt": 0.01},
                  "tmax": 0.3, "requests": ["GET /simulation HTTP/1.0\r\n", "GET /simulation", "GET /simulation HTTP/1.0\r\nHost: x\r\n", "POST /screenshot HTTP/1.0\r\nContent-Length: 3\r\n"]}, 120))
@@ -297,7 +303,7 @@ def run(ctx):
                      "seed": ctx.rng.randint(1, 10 ** 6), "dt": 0.01, "safe_mode": 1}, "tmax": 0.6, "sleep_ms": ctx.rng.choice([25, 40]),
                      "start_after_steps": ctx.rng.randint(4, 15), "clients": 2, "continue": 4}, 240))
     # histories in which the particle number changes: remove -> observe (save / copy / serve) -> add
-    for integ in ["ias15", ctx.rng.choice(["whfast", "leapfrog", "mercurius", "bs", "trace"])] + (["whfast", "leapfrog", "mercurius", "saba"] if ctx.thorough else []):
+    for integ in ["ias15", ctx.rng.choice(["whfast", "leapfrog", "mercurius", "trace"])] + (["whfast", "leapfrog", "mercurius", "saba"] if ctx.thorough else []):
         n = ctx.rng.randint(3, 5)
         jobs.append(("history:" + integ, libdir, "history", {"seed": ctx.rng.randint(1, 10 ** 6), "spec": {"integrator": integ, "n": n, "seed": ctx.rng.randint(1, 10 ** 6),
                      "dt": 0.01, "safe_mode": 1}, "t1": 3.0, "t2": 7.0, "remove_index": ctx.rng.randint(1, n), "steps_between": ctx.rng.choice([0, 3]),
@@ -389,6 +395,18 @@ def run(ctx):
                 m = res["mismatch"][0]
                 ctx.violation("concurrent:" + m["spec"]["integrator"], dict(replay, first_mismatch=m), True,
                               "simulation run concurrently with others ends in different bits than when run alone")
+        elif mode == "lifecycle":
+            ctx.evaluations += res["actions"] * (res["servers"] + res["archives"])
+            ctx.case(key=("lifecycle", res["actions"]))
+            ctx.extra["lifecycle"] = {k: res[k] for k in ("actions", "servers", "archives", "n_bad")}
+            ctx.obligation("validation: server life-cycle error paths (port in use, start twice, stop twice, stop without start, start after stop, free "
+                           "while serving; %d actions): every other serving simulation (%d) keeps answering with its own snapshot and every open "
+                           "archive (%d) keeps returning its own bytes" % (res["actions"], res["servers"], res["archives"]), res["n_bad"] == 0,
+                           json.dumps(res["violations"])[:900])
+            if res["n_bad"]:
+                v0 = res["violations"][0]
+                ctx.violation("lifecycle:interference", dict(replay, first={"after": v0["action"], "observed": v0["bad"]}, trace=res["trace"]), True,
+                              "after '%s': %s" % (v0["action"], "; ".join(v0["bad"])[:300]))
         elif mode == "incomplete":
             ctx.evaluations += len(res["steps"])
             ctx.case(key=("incomplete-request", res["serves_before"]))
